@@ -70,22 +70,30 @@ func RunC19(t *testing.T, spec kernel.Spec) *kernel.Outcome {
 		c.mode = cfg.Pick("static", "static", "host", "forwarded")
 		// the issuer may have a path; the handler is then mounted below it
 		c.path = cfg.Pick("", "", "/oidc", "/tenants/t1")
-		w, err := world.NewStd(o, tape, world.StdOptions{Router: spec.Params["router"], AllGrants: true, IssuerMode: c.mode, IssuerPath: c.path, Options: opts, Endpoints: &eps, Algs: []int{0, 4}})
+		tenants := 1
+		if c.mode != "static" {
+			// one provider, several public names: by Host, or behind a reverse proxy that keeps one internal Host and
+			// names the tenant in the Forwarded header
+			tenants = 2 + cfg.Int(2)
+		}
+		w, err := world.NewStd(o, tape, world.StdOptions{Router: spec.Params["router"], AllGrants: true, IssuerMode: c.mode, IssuerPath: c.path, Options: opts, Endpoints: &eps, Algs: []int{0, 4}, Tenants: tenants})
 		if err != nil {
 			o.Infra = "world: " + err.Error()
 			return
 		}
 		c.w = w
-		hosts := []string{"op.sim"}
-		if c.mode != "static" {
-			hosts = append(hosts, "op2.sim")
-			w.Net.Hosts["op2.sim"] = w.Net.Hosts["op.sim"]
+		issuers := append([]string(nil), w.Issuers...)
+		// a history: every tenant is visited, in a seeded order, some of them twice
+		order := append([]string(nil), issuers...)
+		for i := len(order) - 1; i > 0; i-- {
+			j := cfg.Int(i + 1)
+			order[i], order[j] = order[j], order[i]
 		}
-		var issuers []string
-		for _, h := range hosts {
-			issuers = append(issuers, "https://"+h+c.path)
+		if len(order) > 1 {
+			order = append(order, order[0])
+			o.Probe("multi-tenant-worlds")
 		}
-		for _, iss := range issuers {
+		for _, iss := range order {
 			c.checkIssuer(iss)
 			o.Steps++
 		}
